@@ -2,6 +2,7 @@ import GormModel.Drv.Util
 import GormModel.Model.Migrate
 import GormModel.Model.MigrateOpts
 import GormModel.Model.MigrateJoin
+import GormModel.Model.MigrateCols
 open Lean
 namespace Gorm.Drv
 open Gorm.Mig
@@ -129,6 +130,33 @@ def constraintJ (c : Constraint) : Json :=
     ("fks", Json.arr (c.fks.map fidJ).toArray), ("refs", Json.arr (c.refs.map fidJ).toArray),
     ("ondelete", sJ c.onDelete), ("onupdate", sJ c.onUpdate)]
 
+def oNat (j : Json) (k : String) : Option Nat := (oInt j k).map Int.toNat
+
+/-- {"field": <FieldDecl json>, "depth": n, "perm": bool} -/
+def parseRaw (j : Json) : Option RawField := do
+  some { decl := ← parseField (← (j.getObjVal? "field").toOption), depth := ← oNat j "depth", perm := ← oBool j "perm" }
+
+def parseRelTyp : Str → RelType
+  | ['b', 'e', 'l', 'o', 'n', 'g', 's', '_', 't', 'o'] => .belongsTo
+  | ['h', 'a', 's', '_', 'o', 'n', 'e'] => .hasOne
+  | ['h', 'a', 's', '_', 'm', 'a', 'n', 'y'] => .hasMany
+  | _ => .many2many
+
+/-- "check" | "unique" | "none" | {"typ", "child", "join"} -/
+def parseFound (j : Json) : Option Found :=
+  match j with
+  | Json.str "check" => some .check
+  | Json.str "unique" => some .unique
+  | Json.str _ => some .none
+  | o => do
+    some (.rel { typ := parseRelTyp (← oStr o "typ"), fieldSchemaTable := ← oStr o "child", joinTable := ← oStr o "join" })
+
+def foundJ : Found → Json
+  | .check => Json.str "check"
+  | .unique => Json.str "unique"
+  | .rel _ => Json.str "rel"
+  | .none => Json.str "none"
+
 end HC20
 open HC20 in
 /-- ops:
@@ -202,6 +230,29 @@ def handleC20 (op : String) (args : Array Json) : Option Json := do
       ("name", sJ i.name), ("class", sJ i.cls), ("type", sJ i.typ), ("where", sJ i.whr), ("comment", sJ i.comment),
       ("option", sJ i.option),
       ("fields", Json.arr (i.fields.map fun p => Json.arr #[sJ p.1, Json.num (JsonNumber.fromInt p.2)]).toArray)]).toArray)
+  | "mig.autoraw" =>
+    -- ["mig.autoraw", {table, raw:[…], fks, checks, indexes}, table|null]: AutoMigrate's iteration over the OWNERS of the columns
+    let j := arg args 1
+    let raw ← (← oArr j "raw").toList.mapM parseRaw
+    let m := modelOfRaw (← oStr j "table") raw (← strs j "fks") (← strs j "checks") (← strs j "indexes")
+    let c : Catalog ← match arg args 2 with
+      | Json.null => some []
+      | t => (parseTable t).map (fun ts => [(m.table, ts)])
+    some (Json.mkObj [("ddl", Json.arr ((autoMigrateOne m c).map ddlJ).toArray),
+      ("dbnames", Json.arr ((resolveColumns raw).map (fun f => sJ f.dbName)).toArray),
+      ("owners", Json.arr ((resolveColumns raw).map (fun f => sJ f.comment)).toArray),
+      ("unique", Json.arr ((resolveColumns raw).map (fun f => Json.bool (declaredUnique raw f.dbName))).toArray)])
+  | "mig.guesstable" =>
+    -- ["mig.guesstable", schemaTable, found]: the table GuessConstraintInterfaceAndTable answers with, and stmt.Table
+    let s := (← jStr? (arg args 1)).toList
+    let k ← parseFound (arg args 2)
+    some (Json.mkObj [("table", sJ (guessTable s k)), ("stmt", sJ (stmtTable s))])
+  | "mig.uniquefound" =>
+    -- ["mig.uniquefound", schemaTable, column]: the name MigrateColumnUnique asks for, the name the parser files, what the look-up finds
+    let s := (← jStr? (arg args 1)).toList
+    let c := (← jStr? (arg args 2)).toList
+    some (Json.mkObj [("asked", sJ (uniqueName (stmtTable s) c)), ("filed", sJ (uniqueName s c)),
+      ("found", foundJ (migrateUniqueFound s c)), ("table", sJ (guessTable s (migrateUniqueFound s c)))])
   | _ => none
 
 end Gorm.Drv
